@@ -395,6 +395,34 @@ def run_fix_scenario(case):
         scen.damage_data_disk(a, fs, rng, d, how, state0)
         if rng.random() < 0.4:
             scen.damage_parity_file(rng.choice(a.all_parity_paths()), rng, rng.choice(["delete", "flips", "zero"]))
+        prefix_fix = None
+        if idx % 2 == 1 and len(a.disks) > a.nlev:
+            # some stripes are damaged beyond the redundancy, and a first fix has already run: it left 'file.unrecoverable'
+            # behind; the fix that gets interrupted is the one run after that
+            c0 = a.load_content()
+            from .. import dmg
+            sm0 = c0.stripe_map()
+            # one stripe of a multi-block file gets nlev+1 damaged blocks (the file's own block, blocks of other disks at the
+            # same position, parity blocks): that block is unrecoverable, the rest of the file is fine
+            cand = sorted([f for f in c0.files if len(f.blocks) >= 3 and os.path.exists(os.path.join(os.fsencode(a.ddir(a.disk_names.index(c0.disk_name(f.disk).decode()))), f.sub))],
+                          key=lambda f_: -len(f_.blocks))
+            for f in cand[:rng.randint(1, 2)]:
+                i_ = rng.randint(1, len(f.blocks) - 2)
+                pos = f.blocks[i_][0]
+                done_ = 1 if dmg.damage_file_block(a, c0, f, i_, rng, "byte") == "ok" else 0
+                for e in sm0.get(pos, []):
+                    if done_ > a.nlev:
+                        break
+                    if e[1] == "file" and e[2] is not f and dmg.damage_file_block(a, c0, e[2], e[3], rng, "byte") == "ok":
+                        done_ += 1
+                for l_ in range(a.nlev):
+                    if done_ > a.nlev:
+                        break
+                    if dmg.damage_parity_block(a, c0, l_, pos, rng, "block") == "ok":
+                        done_ += 1
+            prefix_fix = a.cmd("fix", variant=variant).rc
+            res["counters"]["scenarios_after_a_first_fix"] = 1
+            res["counters"]["unrecoverable_leftovers"] = sum(1 for k_ in tree_state(a) if k_[1].endswith(b".unrecoverable"))
         tpl = Template(a)
         r = a.cmd("fix", variant=variant, shim={})
         evs = shimlog.parse(r.events)
@@ -410,9 +438,11 @@ def run_fix_scenario(case):
         if K == 0:
             res["inconclusive"] = "fix made no call"
             return res
-        points = [(k, m) for k in range(1, K + 1) for m in MODES]
-        if tier == "quick" and len(points) > 45:
-            points = rng.sample(points, 45)
+        # process death in three ways at every call, and a graceful stop (SIGINT raised inside the call: fix finishes the
+        # stripe, cleans up what it created but did not finish, and exits)
+        points = [(k, m) for k in range(1, K + 1) for m in list(MODES) + ["sigint"]]
+        if tier == "quick" and len(points) > 60:
+            points = rng.sample(points, 60)
         fired = 0
         for (k, mode) in points:
             tpl.restore()
@@ -422,7 +452,9 @@ def run_fix_scenario(case):
             fired += 1
             hit = muts[k - 1]
             replay = {"case": list(case), "cfg": cfg, "damage": how, "point": [k, mode], "of": K, "call": repr(hit)}
-            label = "fix killed at call %d/%d (%s, %s %s)" % (k, K, mode, hit.op, hit.cls)
+            label = "fix %s at call %d/%d (%s, %s %s)%s" % ("stopped by SIGINT" if mode == "sigint" else "killed", k, K, mode, hit.op, hit.cls,
+                                                            " [after a first fix, rc %s]" % prefix_fix if prefix_fix is not None else "")
+            res["counters"]["fix_points_" + ("sigint" if mode == "sigint" else "kill")] = res["counters"].get("fix_points_" + ("sigint" if mode == "sigint" else "kill"), 0) + 1
             r2 = a.cmd("fix", variant=variant)
             for s in r2.san:
                 res["violations"].append(("sanitizer:" + A.san_key(s), "%s: %s" % (label, s[:2500]), replay))
@@ -490,7 +522,7 @@ def main(tier, seed, replay, jobs, scale):
         cases = [tuple(json.load(open(replay))["replay"]["case"])]
     else:
         ns = int((16 if tier == "quick" else 40) * scale)
-        nf = int((8 if tier == "quick" else 24) * scale)
+        nf = int((12 if tier == "quick" else 32) * scale)
         cases = [("sync", seed, i, tier) for i in range(ns)] + [("fix", seed, i, tier) for i in range(nf)]
     results = list(par.run_cases(dispatch, cases, jobs))
     par.absorb(run, results)
